@@ -100,6 +100,7 @@ class Monitor:
             rec['y'] = dae.y.copy()
             rec['f'] = dae.f.copy()
             rec['g'] = dae.g.copy()
+            rec['Tf'] = np.array(dae.Tf, dtype=float)      # time constants in effect at this accepted point
         if self.watch:
             rec['watch'] = {k: fn() for k, fn in self.watch.items()}
         if self.want_rowsum and tds.Ac is not None:
